@@ -4,11 +4,19 @@ From Coq Require Import Permutation.
 Open Scope Z_scope.
 
 (** after any mix of increment (also on a tracked key), update, remove, clear, update_max_cost
-    and fill_sample: room_left(c) = max_cost - (sum of the recorded costs) - c *)
+    and fill_sample: room_left(c) = max_cost - (sum of the recorded costs) - c, in the i64 arithmetic of
+    the code (which wraps: costs are arbitrary i64 values) ... *)
 Theorem C20_room_left_exact : forall (mc : Z) (n : nat) (ops : list samop) (c : Z),
   let s := samrun (sam_new mc n) ops in
-  sam_room_left s c = smax s - total (scosts s) - c.
+  sam_room_left s c = w64 (smax s - total (scosts s) - c).
 Proof. exact room_left_exact. Qed.
+
+(** ... i.e. the plain integer whenever it fits an i64 (always, for costs of realistic size) *)
+Theorem C20_room_left_exact_in_range : forall (mc : Z) (n : nat) (ops : list samop) (c : Z),
+  let s := samrun (sam_new mc n) ops in
+  -9223372036854775808 <= smax s - total (scosts s) - c < 9223372036854775808 ->
+  sam_room_left s c = smax s - total (scosts s) - c.
+Proof. exact room_left_exact_in_range. Qed.
 
 Theorem C20_tracked_keys_distinct : forall (mc : Z) (n : nat) (ops : list samop),
   NoDup (keys (scosts (samrun (sam_new mc n) ops))).
@@ -40,7 +48,14 @@ Example C20_witness :
   sam_room_left s 0 = 93 /\ scosts s = [(2, 7)].
 Proof. vm_compute. split; reflexivity. Qed.
 
+(** costs at the end of the i64 range wrap instead of overflowing *)
+Example C20_wraps :
+  let s := samrun (sam_new 100 5) [SInc 1 9223372036854775807; SInc 2 1] in
+  sused s = -9223372036854775808 /\ sam_room_left s 0 = -9223372036854775708.
+Proof. vm_compute. split; reflexivity. Qed.
+
 Print Assumptions C20_room_left_exact.
+Print Assumptions C20_room_left_exact_in_range.
 Print Assumptions C20_tracked_keys_distinct.
 Print Assumptions C20_update_reports_tracked.
 Print Assumptions C20_remove_reports_cost.
